@@ -86,6 +86,7 @@ func vfParseWvttSample(b []byte) (empty bool, text, settings string, err error) 
 
 func TestVerifC12(t *testing.T) {
 	r := rep.New("C12")
+	reask := &vfReask{}
 	r.Rule("case = (asset, kind stpp|wvtt, language, cue duration, region, MPD type, start, live index n); class = (asset, kind, mode, start>0, cue-duration class, " +
 		"region, start fraction of the segment within its UTC second (100 ms buckets), number of UTC seconds intersected); counted when cues were compared with the model")
 	r.Assume("cue model: one cue per UTC second intersecting the segment, begin=max(second,segment start), end=min(second+cueDur or begin+cueDur, segment end, next second) – both readings accepted; an empty cue may be omitted")
@@ -203,6 +204,7 @@ func TestVerifC12(t *testing.T) {
 				}
 				full := vfURL(cfgURL, w.Ref.Path, u, nowMS)
 				resp := vfGet(w.Srv, full)
+				reask.add(w.Srv, full, resp)
 				r.Eval(1)
 				sigp := c.kind + ":dur" + durClass + ":"
 				det := func(what string) map[string]any {
@@ -507,6 +509,7 @@ func TestVerifC12(t *testing.T) {
 			}
 		}
 	}
+	vfReaskAtOnce(r, reask, "generated-subtitle-segments")
 	if r.NViolations() > 0 {
 		t.Fail()
 	}
